@@ -19,7 +19,7 @@ var specC10 = report.Spec{Property: "C10", Check: "C10",
 func drawFeats(t *rapid.T, nTargets int, maxFeats int) []FeatSpec {
 	n := rapid.IntRange(0, maxFeats).Draw(t, "features")
 	if rapid.IntRange(0, 9).Draw(t, "long") == 0 {
-		n = rapid.IntRange(0, 200).Draw(t, "featuresLong")
+		n = rapid.IntRange(0, report.Scale(200, 600)).Draw(t, "featuresLong")
 	}
 	feats := make([]FeatSpec, n)
 	for i := range feats {
